@@ -226,7 +226,7 @@ def make_class(specs):
     every generated class also has the parameter `h` that is NOT exported: no message may ever name it"""
     from frappy.datatypes import FloatRange
     from frappy.modules import Module
-    from frappy.params import Parameter
+    from frappy.params import Command, Parameter
     attrs = {'h': Parameter('not exported', FloatRange(), default=0.0, readonly=False, export=False, update_unchanged='always')}
     for pn, spec in specs.items():
         dt, default, uu, has_write, has_check = spec[:5]
@@ -247,6 +247,11 @@ def make_class(specs):
                     raise r
                 return r
             attrs['write_' + pn] = wfunc
+        def dfunc(self, pn=pn):
+            r = run_body(self, pn, self.script[_threading.get_ident(), pn, 'd'])
+            if isinstance(r, BaseException):
+                raise r
+        attrs['cmd_' + pn] = Command(description='generated: assigns the parameter, then returns or raises')(dfunc)
         if has_check:
             def cfunc(self, value, pn=pn):
                 r = self.script[_threading.get_ident(), pn, 'c']
@@ -388,6 +393,9 @@ def do_op(m, case, pid, op, errs, node=None, conns=None):
             else:      # a `change` request of connection op[1]
                 node.request(conns[op[1] % len(conns)], 'change', 'm:_' + pn,
                              change_datum(m.parameters[pn].datatype, raw_of(case, pid, ridx)))
+        elif kind == 'do':       # a `do` request of connection op[1]: the command assigns the parameter, then returns / raises
+            m.script[me, pn, 'd'] = Body(inner, clone_error(errs[op[3] % len(errs)]) if op[2] == 'raise' else None)
+            node.request(conns[op[1] % len(conns)], 'do', 'm:_cmd_' + pn, None)
         elif kind == 'assign':
             setattr(m, pn, raw_of(case, pid, op[1]))
         elif kind == 'hidden':
@@ -423,6 +431,8 @@ def clone_error(e):
 def wire_op(ids, case, pid, op, errs, nconn=1):
     """the operation as the Lean side sees it (numbers instead of Python objects)"""
     inner_idx, base = split_inner(op)
+    if base[0] == 'do':
+        return ['inner', [ids.vid(pid, raw_of(case, pid, i)) for i in inner_idx], ['do', base[1] % nconn + 1]]
     if inner_idx:
         return ['inner', [ids.vid(pid, raw_of(case, pid, i)) for i in inner_idx], wire_op(ids, case, pid, base, errs, nconn)]
     kind = op[0]
@@ -515,7 +525,7 @@ def n_conns(steps):
     n = 1
     for st in steps:
         base = split_inner(st[1])[1]
-        if base[0] in ('activate', 'change', 'rread'):
+        if base[0] in ('activate', 'change', 'rread', 'do'):
             n = max(n, base[1] + 1)
     return n
 
@@ -720,6 +730,11 @@ def first_bad(jreqs, answers, outs=None):
 
 
 def gen_op(rng, ps, nvalid, nall, nerr):
+    if rng.random() < 0.05:
+        # a `do` request: the command assigns the parameter (0-2 times) and returns or raises
+        val = lambda: rng.randrange(nvalid) if rng.random() < 0.85 else rng.randrange(nall)   # noqa: E731
+        return ['inner', [val() for _ in range(rng.choice([0, 1, 1, 2]))],
+                ['do', rng.choice([0, 0, 0, 1]), rng.choice(['ret', 'ret', 'raise']), rng.randrange(nerr)]]
     op = gen_base_op(rng, ps, nvalid, nall, nerr)
     # a driver method that assigns the parameter itself before it returns / raises
     if op[0] in ('read', 'write', 'change', 'rread') and rng.random() < 0.15:
@@ -996,7 +1011,8 @@ def gen_kernel(rng):
            # and fails then
            ['change', 0, 1, 'ok', ['none']], ['change', 0, 0, 'ok', ['raise', 2]], ['change', 1, 1, 'ok', ['ret', 2]],
            ['inner', [1], ['change', 0, 0, 'ok', ['raise', 2]]], ['inner', [2], ['write', 1, 'ok', ['raise', 0]]],
-           ['rread', 0, 'ret', 1], ['inner', [1], ['read', 'raise', 0]]]
+           ['rread', 0, 'ret', 1], ['inner', [1], ['read', 'raise', 0]], ['inner', [1], ['do', 0, 'ret', 0]],
+           ['inner', [2, 1], ['do', 0, 'raise', 2]]]
     params = [{'kind': rng.choice(['float', 'int', 'enum', 'string', 'floatres']), 'uu': rng.choice(['default', 'never', 2.0, 'always']),
                'nodefault': False, 'has_write': rng.random() < 0.7, 'has_check': False, 'readonly': False}]
     progs = [[[0, json.loads(json.dumps(rng.choice(cat)))]], [[0, json.loads(json.dumps(rng.choice(cat)))]]]
@@ -1533,11 +1549,11 @@ def run(ctx):
             if r['bad_law']:
                 res.count('seq.export-law-broken-by-raw-values')
             bases = [split_inner(st[1])[1] for st in r['steps']]
-            nreq = sum(1 for b in bases if b[0] in ('change', 'rread'))
+            nreq = sum(1 for b in bases if b[0] in ('change', 'rread', 'do'))
             listening = {st[1][1] for st in r['steps'] if st[1][0] == 'activate'}
             res.count('seq.requests=' + ('0' if nreq == 0 else '1-2' if nreq < 3 else '3+'))
             if nreq:
-                res.count('seq.requester-listens=' + ('yes' if any(b[0] in ('change', 'rread') and b[1] in listening for b in bases)
+                res.count('seq.requester-listens=' + ('yes' if any(b[0] in ('change', 'rread', 'do') and b[1] in listening for b in bases)
                                                       else 'no'))
             res.count('seq.driver-body-assigns=' + ('yes' if any(st[1][0] == 'inner' for st in r['steps']) else 'no'))
             near = sum(1 for a, b in zip([{'cache_py': r['init_py'], 'cache_x': r['init_x']}] + r['outs'], r['outs'])
@@ -1704,7 +1720,7 @@ def run(ctx):
                 else:
                     touched.setdefault(pid, set()).add(ti)
         res.count('conc.activations-during-run=%d' % nact)
-        nreq = sum(1 for prog in case['progs'] for _, op in prog if split_inner(op)[1][0] in ('change', 'rread'))
+        nreq = sum(1 for prog in case['progs'] for _, op in prog if split_inner(op)[1][0] in ('change', 'rread', 'do'))
         res.count('conc.requests-during-run=' + ('0' if nreq == 0 else '1' if nreq == 1 else '2+'))
         res.count('conc.pre-activated=%d' % len({c % case['nconn'] for c, _, _ in conc_pre(case)}))
         if any(len(v) > 1 for v in touched.values()) and nmsg >= 2:
